@@ -68,6 +68,12 @@ def body(name, wt, pids):
     if out.strip():
         print("/repo not clean, refusing"); sys.exit(4)
     results = {}
+    # evidence files describe the unchanged tree: keep them aside while the seed is applied
+    saved = {}
+    for pid in pids:
+        ep = os.path.join(V, "evidence", pid + ".json")
+        if os.path.exists(ep):
+            saved[ep] = open(ep).read()
     try:
         rc, out = run("git -C /repo apply %s" % os.path.join(dst, "patch.diff"))
         if rc != 0:
@@ -84,6 +90,8 @@ def body(name, wt, pids):
                         shutil.copy(rp, os.path.join(dst, "replay_%s.json" % pid))
     finally:
         run("git -C /repo checkout -- .")
+        for ep, txt in saved.items():
+            open(ep, "w").write(txt)
     meta["confirmed"] = ran
     meta["our_checks"] = results
     meta["caught"] = any(r["exit"] == 1 for r in results.values())
